@@ -36,3 +36,41 @@ func c02hp(name string, reach []string, desc string, qs, qv, ts, tv int) *Harnes
 	return &HarnessSpec{Name: name, Pkg: "db", Stubs: dbStubs, Params: map[string]int{"secrets": qs, "versions": qv},
 		ThoroughParams: map[string]int{"secrets": ts, "versions": tv}, ExpectReach: reach, Desc: desc}
 }
+
+func init() {
+	c01 := &Property{ID: "C01", Pkgs: []string{"db"},
+		Bounds: map[string]string{"secrets_per_state": "2 / 3", "versions_per_secret": "2 / 3", "rule sets": "arbitrary: ALLOW(action,name) is an uninterpreted predicate"}}
+	stubs := map[string]string{
+		"(github.com/tailscale/setec/acl.Rules).Allow": "verifAllowUF",
+		"tailscale.com/atomicfile.WriteFile":            "verifAtomicWrite",
+	}
+	for _, n := range []string{"Info", "Get", "GetConditional", "GetVersion", "Put", "Activate", "DeleteVersion", "Delete"} {
+		c01.Harnesses = append(c01.Harnesses, &HarnessSpec{Name: "verifHarnessC01" + n, Pkg: "db", Stubs: stubs,
+			Params: map[string]int{"secrets": 2, "versions": 2}, ThoroughParams: map[string]int{"secrets": 3, "versions": 3},
+			ExpectReach: []string{"end-denied", "end-allowed"}, Desc: "DB." + n + ": effect or disclosure only with ALLOW(required action, name); refusal independent of existence"})
+	}
+	c01.Harnesses = append(c01.Harnesses, &HarnessSpec{Name: "verifHarnessC01List", Pkg: "db", Stubs: stubs,
+		Params: map[string]int{"secrets": 2, "versions": 1}, ThoroughParams: map[string]int{"secrets": 3, "versions": 2},
+		ExpectReach: []string{"end"}, Desc: "DB.List returns exactly the present secrets with ALLOW(info, name)"})
+	propRegistry = append(propRegistry, c01)
+}
+
+func init() {
+	c06 := &Property{ID: "C06", Pkgs: []string{"db"},
+		Bounds: map[string]string{"secrets_per_state": "2 / 3", "versions_per_secret": "2 / 3", "sink faults": "every Write and every Sync may fail (nondet)"}}
+	stubs := map[string]string{
+		"(github.com/tailscale/setec/acl.Rules).Allow": "verifAllowUF",
+		"tailscale.com/atomicfile.WriteFile":            "verifAtomicWrite",
+	}
+	for _, n := range []string{"Info", "Get", "GetConditional", "GetVersion", "Put", "Activate", "DeleteVersion", "Delete"} {
+		c06.Harnesses = append(c06.Harnesses, &HarnessSpec{Name: "verifHarnessC06" + n, Pkg: "db", Stubs: stubs,
+			Params: map[string]int{"secrets": 2, "versions": 2}, ThoroughParams: map[string]int{"secrets": 3, "versions": 3},
+			ExpectReach: []string{"end-denied", "end-sink-failed"}, Desc: "DB." + n + ": sealed audit record before effect/disclosure; fail-closed on sink faults"})
+	}
+	for _, n := range []string{"UnchangedPollSilent", "List", "WriteEntries"} {
+		c06.Harnesses = append(c06.Harnesses, &HarnessSpec{Name: "verifHarnessC06" + n, Pkg: "db", Stubs: stubs,
+			Params: map[string]int{"secrets": 2, "versions": 2}, ThoroughParams: map[string]int{"secrets": 3, "versions": 3},
+			ExpectReach: []string{"end"}, Desc: "audit: " + n})
+	}
+	propRegistry = append(propRegistry, c06)
+}
